@@ -448,7 +448,6 @@ func prefixScanReader(p *Prog, keyFn *ssa.Function) string {
 	return ""
 }
 
-
 // topoRule: the counter behind the topo_<n> keys is advanced only once the event carrying that
 // number has been stored. Otherwise a single failed insertion after the increment leaves a hole in
 // the key sequence, and Bootstrap — which reads consecutive keys until one is missing — silently
@@ -505,7 +504,6 @@ func topoRule(p *Prog, r *Report, rule string) {
 	r.Check(len(bad) == 0, rule, "Hashgraph.topologicalIndex:writers", "-", "", "written by InsertEvent and Reset only", "other writers: "+strings.Join(bad, ", "))
 }
 
-
 // C16.fields: what is written decodes to the identical value only if every field of the persisted
 // type goes through the codec. Unexported fields are dropped by encoding/json and ugorji codec;
 // they must be caches recomputed on demand (table below, one reason each).
@@ -513,15 +511,15 @@ func c16fields(p *Prog, r *Report) {
 	const rule = "C16.fields"
 	r.Rule(rule, 6, "every field of a persisted type is serialised or is a listed derived cache")
 	derived := map[string]map[string]string{
-		"Block":     {"hash": "lazy cache of Hash()", "hex": "lazy cache of Hex()", "peerSet": "rebuilt from PeersHash consumers; only set by NewBlock"},
-		"Peer":      {"id": "lazy cache of ID()"},
-		"PeerSet":   {"ByPubKey": "rebuilt by initMaps in Unmarshal", "ByID": "rebuilt by initMaps in Unmarshal", "hash": "lazy cache", "hex": "lazy cache", "superMajority": "lazy cache", "trustCount": "lazy cache"},
-		"Frame":     {},
-		"Root":      {},
-		"RoundInfo": {},
+		"Block":      {"hash": "lazy cache of Hash()", "hex": "lazy cache of Hex()", "peerSet": "rebuilt from PeersHash consumers; only set by NewBlock"},
+		"Peer":       {"id": "lazy cache of ID()"},
+		"PeerSet":    {"ByPubKey": "rebuilt by initMaps in Unmarshal", "ByID": "rebuilt by initMaps in Unmarshal", "hash": "lazy cache", "hex": "lazy cache", "superMajority": "lazy cache", "trustCount": "lazy cache"},
+		"Frame":      {},
+		"Root":       {},
+		"RoundInfo":  {},
 		"roundEvent": {},
 		"FrameEvent": {},
-		"BlockBody": {},
+		"BlockBody":  {},
 	}
 	for _, t := range [][2]string{{HG, "Block"}, {HG, "BlockBody"}, {HG, "Frame"}, {HG, "FrameEvent"}, {HG, "Root"}, {HG, "RoundInfo"}, {HG, "roundEvent"}, {PEER, "Peer"}, {PEER, "PeerSet"}} {
 		n := p.Type(t[0], t[1])
@@ -543,7 +541,6 @@ func c16fields(p *Prog, r *Report) {
 		}
 	}
 }
-
 
 // C16.lru: write-through only helps if the cache takes the new value. For a key already cached,
 // LRU.Add must store its value parameter into the existing entry on every path.
